@@ -268,7 +268,6 @@ func (srv *Server) start(ctx context.Context, m *Method, r capnp.Recv) capnp.Pip
 	go func() {
 		err := m.Impl(ctx, call)
 		verifhook.Yield(204)
-		r.ReleaseArgs()
 		if err == nil {
 			aq.fulfill(call.results)
 			r.Returner.Return(nil)
@@ -290,6 +289,12 @@ func (srv *Server) start(ctx context.Context, m *Method, r capnp.Recv) capnp.Pip
 		srv.mu.Unlock()
 		verifhook.Yield(207)
 		close(done)
+		// Release the arguments only now that the call no longer counts as
+		// ongoing and start has been told that it is done: releasing them
+		// can drop the last reference to this very server, and the Shutdown
+		// that follows waits for ongoing calls (and Client.Release for the
+		// caller's RecvCall/SendCall to return).
+		r.ReleaseArgs()
 	}()
 	var pcall capnp.PipelineCaller
 	select {
